@@ -351,7 +351,7 @@ def dispatcher_rules(ctx, rep):
                 return r
 
             Hd.ip.class_models[rs] = ruleset
-            Hd.selfobj.attrs["_dag_traverser_cache"] = {}
+            Hd.init_from_source()
             f_ = terminal("f", opshape)
             o = node(T.symbolic("df", opshape + (dim,)), tname, (f_,))
             try:
